@@ -8,8 +8,21 @@ thread_local! {
     static ACTIVE: Cell<bool> = const { Cell::new(false) };
 }
 pub static POINTS: AtomicU64 = AtomicU64::new(0);
+thread_local! {
+    // stage labels that are scheduling points in the current exploration (empty = all of them)
+    static ONLY: Cell<&'static [&'static str]> = const { Cell::new(&[]) };
+}
 
-fn hook(_label: &'static str) {
+/// restrict the scheduling points to the given stage labels (coarser interleavings, still explored exhaustively)
+pub fn set_points(labels: &'static [&'static str]) {
+    ONLY.with(|o| o.set(labels));
+}
+
+fn hook(label: &'static str) {
+    let only = ONLY.with(|o| o.get());
+    if !only.is_empty() && !only.contains(&label) {
+        return;
+    }
     if ACTIVE.with(|a| a.get()) {
         POINTS.fetch_add(1, Ordering::Relaxed);
         shuttle::thread::yield_now();
